@@ -409,7 +409,13 @@ func (s *badgerStore) UpdateNodePeers(nodeID store.NodeID, peers []string, block
 	now := time.Now()
 	var node store.Node
 	nodePeers := map[store.NodeID]time.Time{}
-	err = s.db.Update(func(txn *badger.Txn) error {
+	err = s.updateRetry(func(txn *badger.Txn) error {
+		// The transaction is run again if it conflicted with a concurrent one
+		// (such as a keep-alive of one of the peers), so it starts from scratch.
+		node = store.Node{}
+		nodePeers = map[store.NodeID]time.Time{}
+		inactive = nil
+
 		// Update this node's LastSeen
 		if err := getItem(txn, nodeKey, &node); err == badger.ErrKeyNotFound {
 			return store.ErrUnregisteredNode
